@@ -257,7 +257,7 @@ func (s *side) normPath(p string) string {
 	vol := avfs.VolumeName(s.v, p)
 	q := s.v.ToSlash(p[len(vol):])
 
-	if vol != "" && vol != "C:" {
+	if vol != "" && vol+`\` != s.root {
 		q = vol + q // a foreign volume stays visible
 	}
 
